@@ -194,31 +194,42 @@ class C10(Property):
         "Flatland.C10.Proofs.named_after_key",
         "Flatland.C10.Proofs.undeclared_rejected",
         "Flatland.C10.Proofs.C10_full_fails",
+        "Flatland.C10.Proofs.C10_runClassOnly_fails",
     ]
     level_text = "proof (partial)"
-    level_note = ("mapinv_init/mapinv_step/mapinv_run: the mapping invariant (declared keys only, Dict = exactly its "
-                  "fields in order, required fields of a sparse-required mapping, children of the declared class under "
-                  "the field's name with the mapping as stored parent) holds initially and is preserved by every "
-                  "dict-protocol call, accepted or rejected, under the hypothesis that an Element argument passing "
-                  "isinstance is of the field class itself; without it the statement is refuted (C10_full_fails, "
-                  "KF-C10-a). set_flat and Compound are covered by the Python oracle only")
+    level_note = ("THEOREM (partial): mapinv_init/mapinv_step/mapinv_run — the mapping invariant holds initially and is "
+                  "preserved by every dict-protocol call of the model, accepted or rejected, under ArgExact: an Element "
+                  "argument that passes isinstance is of the field class itself AND carries no instance-level optional=/"
+                  "name= override. Without it the statement is refuted: C10_full_fails (renamed subclass, KF-C10-a) and "
+                  "C10_runClassOnly_fails (exact class with optional=True deletes a required key, KF-C10-b). "
+                  "undeclared_rejected is a theorem for setitem/del/pop/setdefault/get only. On model paths answering "
+                  "`unsupported` (Element handed to a dense Dict whose child is a container, non-empty list handed to "
+                  "Dict.set ...) the step theorem is vacuous: the node is unchanged. ORACLE ONLY: rejection of undeclared "
+                  "keys by update/|=/set(strict|subset); Compound (DateYYYYMMDD) roots; set_flat/from_flat; the "
+                  "`unsupported` paths. Declarative Schema roots are modelled as Dict and compared")
     technique = "invariant proof over operation histories (Lean 4) + differential testing against the implementation"
     trusted_base = [
         "dict insertion order and key replacement semantics of CPython dict (modelled as an ordered list of children)",
         "`isinstance(value, field_schema)` modelled as class identity or derivation (cid / isa)",
     ]
     assumptions = [
-        "Compound (DateYYYYMMDD) is exercised by the Python oracle only where it behaves as a Mapping; its compose/"
-        "explode logic belongs to C18",
+        "Compound (DateYYYYMMDD) roots and the flat routes are generated and checked by the Python oracle only; "
+        "Compound's compose/explode logic belongs to C18",
+        "the model follows containers.py as it is: SparseDict.__delitem__/pop read the MEMBER's optional (instance "
+        "attribute), `.name` is the instance's",
         "field names are non-empty and distinct (Dict.of enforces distinctness)",
         "Element arguments are fresh or detached (no aliasing)",
     ]
-    rule = ("histories of 1-14 dict-protocol calls (item assignment with plain values / fresh Elements / detached "
-            "Elements / Elements of a renamed subclass, del, pop, popitem, clear, update positional dict|pairs|junk and "
-            "keyword, |=, setdefault, get, set under explicit policy strict/subset/duck/None or the class policy, "
-            "set_default) over declared and undeclared keys, on a Dict or SparseDict (minimum_fields None/'required') "
-            "with 1-3 fields (Integer/String/List/Dict, optional or not, with defaults); non-trivial = at least 3 calls "
-            "changed the mapping or raised")
+    rule = ("histories of 1-14 dict-protocol calls (item assignment with plain values / fresh Elements / Elements detached "
+            "earlier / Elements owned by another container / Elements of a renamed or optional-overriding subclass / "
+            "Elements of the field class built with optional= or name= keywords; del, pop, popitem, clear, update "
+            "positional dict|pairs|junk and keyword, update/|= with Element values, setdefault, get, set under explicit "
+            "policy strict/subset/duck/None or the class policy, set_default, set_flat) over declared and undeclared keys, "
+            "on a Dict, declarative Schema, SparseDict (minimum_fields None/'required') with 1-3 fields "
+            "(Integer/String/List/Dict, optional or not, with defaults) or a DateYYYYMMDD compound; routes constructor/"
+            "set/set_default/from_defaults/from_flat/set_flat. Cases the Lean model does not cover (flat routes, "
+            "Compound, model paths answering unsupported) are marked oracle-only BEFORE the run and are not counted as "
+            "validated traces (tag model=oracle-only). non-trivial = at least 3 calls changed the mapping or raised")
     quick_n = 40000
     thorough_n = 300000
 
